@@ -426,7 +426,258 @@ func init() {
 		"text/template.New":   inTmplNew,
 		"(*text/template.Template).Parse":   inTmplParse,
 		"(*text/template.Template).Execute": inTmplExecute,
+		"strings.Cut":                      inCut,
+		"strings.CutPrefix":                inCutPrefix,
+		"strings.IndexByte":                inIndexByte,
+		"(*strings.Builder).Len":           inBuilderLen,
+		"(*bytes.Buffer).Len":              inBuilderLen,
+		"(*strings.Builder).Reset":         inBuilderReset,
+		"(*bytes.Buffer).Reset":            inBuilderReset,
+		"(*strings.Builder).Grow":          inNoop,
+		"(*bytes.Buffer).Grow":             inNoop,
+		"(*strings.Builder).WriteByte":     inBuilderWriteByte,
+		"(*bytes.Buffer).WriteByte":        inBuilderWriteByte,
+		"(*strings.Builder).WriteRune":     inBuilderWriteRune,
+		"(*bytes.Buffer).WriteRune":        inBuilderWriteRune,
+		"fmt.Errorf":                       inErrorf,
+		"fmt.Fprintf":                      inFprintf,
+		"fmt.Fprint":                       inFprint,
+		"fmt.Sprint":                       inSprint,
+		"(*sync.Once).Do":                  inOnceDo,
+		"io.ReadAll":                       inReadAll,
+		"io/ioutil.ReadAll":                inReadAll,
+		"(golang.org/x/text/language.Tag).String": inTagString,
 	}
+}
+
+// strings.Cut(s, sep): the first occurrence decides
+func inCut(ex *Exec, fn *ssa.Function, a []Value, g *Term, w string) Value {
+	s, sep := a[0].(*Term), a[1].(*Term)
+	if allLiftable(s, sep) {
+		before := lift(SStr, func(cs []*Term) *Term { b, _, _ := strings.Cut(cs[0].s, cs[1].s); return Str(b) }, s, sep)
+		after := lift(SStr, func(cs []*Term) *Term { _, x, _ := strings.Cut(cs[0].s, cs[1].s); return Str(x) }, s, sep)
+		found := lift(SBool, func(cs []*Term) *Term { _, _, f := strings.Cut(cs[0].s, cs[1].s); return Bool(f) }, s, sep)
+		return TupleVal{before, after, found}
+	}
+	if !isStrConst(sep) {
+		unsupported("strings.Cut with a symbolic separator at %s", w)
+	}
+	i := IndexOf(s, sep, IntC(0))
+	found := Not(IntBin(OpIntLt, i, IntC(0)))
+	n := IntC(int64(len(sep.s)))
+	before := Ite(found, Substr(s, IntC(0), i), s)
+	rest := IntBin(OpIntAdd, i, n)
+	after := Ite(found, Substr(s, rest, IntBin(OpIntSub, StrLenInt(s), rest)), Str(""))
+	return TupleVal{before, after, found}
+}
+
+func inCutPrefix(ex *Exec, fn *ssa.Function, a []Value, g *Term, w string) Value {
+	s, p := a[0].(*Term), a[1].(*Term)
+	if allLiftable(s, p) {
+		after := lift(SStr, func(cs []*Term) *Term { x, _ := strings.CutPrefix(cs[0].s, cs[1].s); return Str(x) }, s, p)
+		found := lift(SBool, func(cs []*Term) *Term { _, f := strings.CutPrefix(cs[0].s, cs[1].s); return Bool(f) }, s, p)
+		return TupleVal{after, found}
+	}
+	if !isStrConst(p) {
+		unsupported("strings.CutPrefix with a symbolic prefix at %s", w)
+	}
+	n := IntC(int64(len(p.s)))
+	found := Eq(Substr(s, IntC(0), n), p)
+	return TupleVal{Ite(found, Substr(s, n, IntBin(OpIntSub, StrLenInt(s), n)), s), found}
+}
+
+func inIndexByte(ex *Exec, fn *ssa.Function, a []Value, g *Term, w string) Value {
+	s, c := a[0].(*Term), a[1].(*Term)
+	if c.op != OpConst {
+		unsupported("strings.IndexByte with a symbolic byte at %s", w)
+	}
+	if s.Liftable() {
+		return lift(SBV, func(cs []*Term) *Term { return BV(int64(strings.IndexByte(cs[0].s, byte(c.i)))) }, s)
+	}
+	return intToBV(IndexOf(s, Str(string([]byte{byte(c.i)})), IntC(0)))
+}
+
+// the content of a strings.Builder / bytes.Buffer: a builder object of its own (Idx < 0) or a struct
+// field / array element holding the content by value
+func builderGet(t PtrTarget) *Term {
+	if t.Idx < 0 {
+		return t.Obj.cells[0].(*Term)
+	}
+	return subGet(t.Obj.cells[t.Idx], subPath(t.Sub)).(*Term)
+}
+
+func builderSet(t PtrTarget, v *Term) {
+	if t.Idx < 0 {
+		t.Obj.cells[0] = v
+		return
+	}
+	t.Obj.cells[t.Idx] = subSet(t.Obj.cells[t.Idx], subPath(t.Sub), func(Value) Value { return v })
+}
+
+func inBuilderLen(ex *Exec, fn *ssa.Function, a []Value, g *Term, w string) Value {
+	return StrLenBV(inBuilderString(ex, nil, a[:1], g, w).(*Term))
+}
+
+func inBuilderReset(ex *Exec, fn *ssa.Function, a []Value, g *Term, w string) Value {
+	for _, t := range a[0].(*PtrVal).T {
+		if t.Obj == nil {
+			ex.panicIf(And(g, t.G), "nil builder at "+w)
+			continue
+		}
+		builderSet(t, Ite(And(g, t.G), Str(""), builderGet(t)))
+	}
+	return nil
+}
+
+func inBuilderWriteByte(ex *Exec, fn *ssa.Function, a []Value, g *Term, w string) Value {
+	c := a[1].(*Term)
+	if c.op != OpConst {
+		unsupported("WriteByte of a symbolic byte at %s", w)
+	}
+	inBuilderWrite(ex, nil, []Value{a[0], Str(string([]byte{byte(c.i)}))}, g, w)
+	return newErrNil(len(ex.errNames))
+}
+
+func inBuilderWriteRune(ex *Exec, fn *ssa.Function, a []Value, g *Term, w string) Value {
+	c := a[1].(*Term)
+	if c.op != OpConst {
+		unsupported("WriteRune of a symbolic rune at %s", w)
+	}
+	str := string(rune(c.i))
+	inBuilderWrite(ex, nil, []Value{a[0], Str(str)}, g, w)
+	return TupleVal{BV(int64(len(str))), newErrNil(len(ex.errNames))}
+}
+
+// fmt.Errorf: a fresh error identity; with %w it also matches whatever the wrapped error matches.
+func inErrorf(ex *Exec, fn *ssa.Function, a []Value, g *Term, w string) Value {
+	f := a[0].(*Term)
+	if !isStrConst(f) {
+		unsupported("fmt.Errorf with a symbolic format at %s", w)
+	}
+	va := a[1].(*SliceVal)
+	ex.errNames = append(ex.errNames, "fmt.Errorf@"+w)
+	n := len(ex.errNames)
+	e := &ErrVal{Nil: False, Bits: make([]*Term, n)}
+	for i := range e.Bits {
+		e.Bits[i] = Bool(i == n-1)
+	}
+	// position of %w among the verbs
+	ai := 0
+	s := f.s
+	for i := 0; i < len(s); i++ {
+		if s[i] != '%' {
+			continue
+		}
+		j := i + 1
+		for j < len(s) && strings.IndexByte("+-# 0123456789.", s[j]) >= 0 {
+			j++
+		}
+		if j >= len(s) {
+			break
+		}
+		if s[j] == '%' {
+			i = j
+			continue
+		}
+		if s[j] == 'w' && ai < len(va.Elems) {
+			var wrapped *ErrVal
+			switch x := va.Elems[ai].(type) {
+			case *ErrVal:
+				wrapped = x
+			case *IfaceVal:
+				wrapped, _ = x.V.(*ErrVal)
+			}
+			if wrapped == nil {
+				unsupported("fmt.Errorf %%w of %T at %s", va.Elems[ai], w)
+			}
+			for k := 0; k < n-1; k++ {
+				e.Bits[k] = Or(e.Bits[k], And(Not(wrapped.Nil), wrapped.bit(k)))
+			}
+		}
+		ai++
+		i = j
+	}
+	return e
+}
+
+func writerTarget(v Value, w string) Value {
+	iv, ok := v.(*IfaceVal)
+	if !ok || !(namedIs(iv.Typ, "bytes", "Buffer") || namedIs(iv.Typ, "strings", "Builder")) {
+		unsupported("formatted write to %T at %s", v, w)
+	}
+	return iv.V
+}
+
+func inFprintf(ex *Exec, fn *ssa.Function, a []Value, g *Term, w string) Value {
+	dst := writerTarget(a[0], w)
+	str := inSprintf(ex, nil, a[1:], g, w).(*Term)
+	inBuilderWrite(ex, nil, []Value{dst, str}, g, w)
+	return TupleVal{StrLenBV(str), newErrNil(len(ex.errNames))}
+}
+
+func sprintArgs(ex *Exec, va *SliceVal, g *Term, w string) *Term {
+	var parts []*Term
+	for _, e := range va.Elems {
+		parts = append(parts, ex.fmtValue(e, 'v', g, w))
+	}
+	return Concat(parts...)
+}
+
+func inSprint(ex *Exec, fn *ssa.Function, a []Value, g *Term, w string) Value {
+	va := a[0].(*SliceVal)
+	if len(va.Elems) > 1 {
+		unsupported("fmt.Sprint with several operands (spacing rules) at %s", w)
+	}
+	return sprintArgs(ex, va, g, w)
+}
+
+func inFprint(ex *Exec, fn *ssa.Function, a []Value, g *Term, w string) Value {
+	dst := writerTarget(a[0], w)
+	va := a[1].(*SliceVal)
+	if len(va.Elems) > 1 {
+		unsupported("fmt.Fprint with several operands (spacing rules) at %s", w)
+	}
+	str := sprintArgs(ex, va, g, w)
+	inBuilderWrite(ex, nil, []Value{dst, str}, g, w)
+	return TupleVal{StrLenBV(str), newErrNil(len(ex.errNames))}
+}
+
+// sync.Once (sequential semantics): the function runs on the first call only.
+func inOnceDo(ex *Exec, fn *ssa.Function, a []Value, g *Term, w string) Value {
+	p := a[0].(*PtrVal)
+	fv, ok := a[1].(*FuncVal)
+	if !ok || fv.Fn == nil {
+		unsupported("sync.Once.Do with %T at %s", a[1], w)
+	}
+	if len(p.T) != 1 || p.T[0].Obj == nil || p.T[0].Idx < 0 {
+		unsupported("sync.Once reached through an ambiguous or nil pointer at %s", w)
+	}
+	t := p.T[0]
+	done := subGet(t.Obj.cells[t.Idx], subPath(t.Sub)).(*Term)
+	run := And(g, Not(done))
+	t.Obj.cells[t.Idx] = subSet(t.Obj.cells[t.Idx], subPath(t.Sub), func(Value) Value { return Or(done, g) })
+	if !run.IsFalse() {
+		ex.callFunction(fv.Fn, nil, fv.Bind, run)
+	}
+	return nil
+}
+
+// io.ReadAll: everything up to EOF; on a failing reader the data read before the failure and the error
+func inReadAll(ex *Exec, fn *ssa.Function, a []Value, g *Term, w string) Value {
+	buf := ex.heap.newObj(KBuilder, nil, 1, "bytebuf")
+	buf.born = g
+	buf.cells[0] = Str("")
+	dst := &IfaceVal{Nil: False, Typ: bytesBufferType(ex), V: ptrTo(buf, -1)}
+	r := inIOCopy(ex, nil, []Value{dst, a[0]}, g, w).(TupleVal)
+	content := buf.cells[0].(*Term)
+	return TupleVal{&BytesVal{Obj: buf, N: StrLenBV(content), Cap: 1 << 30}, r[1]}
+}
+
+// language.Tag.String(): the tags the models distinguish print as their BCP 47 names; every other tag
+// prints as some other string (uninterpreted, different from the known ones)
+func inTagString(ex *Exec, fn *ssa.Function, a []Value, g *Term, w string) Value {
+	t := a[0].(*Term)
+	return ex.tagString(t)
 }
 
 // ---------------------------------------------------------------------------
@@ -596,8 +847,8 @@ func inBuilderWrite(ex *Exec, fn *ssa.Function, args []Value, g *Term, where str
 			continue
 		}
 		c := And(g, t.G)
-		old := t.Obj.cells[0].(*Term)
-		t.Obj.cells[0] = Ite(c, Concat(old, x), old)
+		old := builderGet(t)
+		builderSet(t, Ite(c, Concat(old, x), old))
 	}
 	return TupleVal{StrLenBV(x), newErrNil(len(ex.errNames))}
 }
@@ -626,7 +877,7 @@ func inBuilderString(ex *Exec, fn *ssa.Function, args []Value, g *Term, where st
 			x = Str("") // (*Builder)(nil).String() panics in reality for Builder; Buffer returns "<nil>"
 			ex.panicIf(And(g, t.G), "nil builder at "+where)
 		} else {
-			x = t.Obj.cells[0]
+			x = builderGet(t)
 		}
 		if acc == nil {
 			acc = x
@@ -780,19 +1031,45 @@ func trimLead(s *Term, c byte, where string) *Term {
 }
 
 // sync.Map as an ordinary map keyed by the dynamic value of the key (one key type per map assumed)
-func ifacePayload(v Value, where string) (*Term, *IfaceVal) {
+func ifacePayload(v Value, where string) (Value, *IfaceVal) {
 	iv, ok := v.(*IfaceVal)
 	if !ok {
 		unsupported("sync.Map key/value %T at %s", v, where)
 	}
-	t, ok := iv.V.(*Term)
-	if !ok {
+	switch iv.V.(type) {
+	case *Term, *StructVal:
+	default:
 		unsupported("sync.Map key/value payload %T at %s", iv.V, where)
 	}
-	return t, iv
+	return iv.V, iv
 }
 
-func syncMapLookup(ex *Exec, m *PtrVal, key *Term, g *Term) (Value, *Term) {
+// keyEq: equality of two map keys (scalars or structs of scalars); keys of different dynamic type differ.
+func keyEq(a, b Value) *Term {
+	ta, ok1 := a.(*Term)
+	tb, ok2 := b.(*Term)
+	if ok1 && ok2 {
+		if ta.sort != tb.sort {
+			return False
+		}
+		return Eq(ta, tb)
+	}
+	if ok1 != ok2 {
+		return False
+	}
+	sa, ok1 := a.(*StructVal)
+	sb, ok2 := b.(*StructVal)
+	if !ok1 || !ok2 || len(sa.F) != len(sb.F) || !types.Identical(sa.Typ, sb.Typ) {
+		return False
+	}
+	var cs []*Term
+	for i := range sa.F {
+		cs = append(cs, keyEq(sa.F[i], sb.F[i]))
+	}
+	return And(cs...)
+}
+
+func syncMapLookup(ex *Exec, m *PtrVal, key Value, g *Term) (Value, *Term) {
 	var val Value = &IfaceVal{Nil: True}
 	ok := False
 	for _, t := range m.T {
@@ -800,11 +1077,7 @@ func syncMapLookup(ex *Exec, m *PtrVal, key *Term, g *Term) (Value, *Term) {
 			continue
 		}
 		for _, e := range t.Obj.entries {
-			k := e.Key.(*Term)
-			if k.sort != key.sort {
-				continue
-			}
-			hit := And(t.G, e.G, Eq(k, key))
+			hit := And(t.G, e.G, keyEq(e.Key, key))
 			if hit.IsFalse() {
 				continue
 			}
@@ -1295,4 +1568,23 @@ func ratRound(a *big.Rat) *big.Int {
 		return ratFloor(new(big.Rat).Add(a, half))
 	}
 	return ratCeil(new(big.Rat).Sub(a, half))
+}
+
+
+func intToBV(t *Term) *Term {
+	if t.Liftable() {
+		return lift(SBV, func(cs []*Term) *Term { return BV(cs[0].i) }, t)
+	}
+	return mkApp(OpInt2BV, SBV, "", t)
+}
+
+// bytesBufferType: the named type bytes.Buffer (for interface values built by models)
+func bytesBufferType(ex *Exec) types.Type {
+	if p := ex.prog.ImportedPackage("bytes"); p != nil {
+		if m := p.Type("Buffer"); m != nil {
+			return types.NewPointer(m.Type())
+		}
+	}
+	unsupported("package bytes is not loaded")
+	return nil
 }
